@@ -100,9 +100,15 @@ class Prop:
 
     def confirm_hangs(self, st, exe, res, out, seed, cases, tier):
         """A CPU-limit hit is re-run once alone; only a reproduced one stays a 'hang' violation."""
+        confirmed = {}
         for r in res["records"]:
             if r.get("t") != "hang":
                 continue
+            # at most 2 confirmations per crash context: further hangs with a confirmed context are taken as confirmed
+            ctx = r.get("ctx", "")
+            if confirmed.get(ctx, 0) >= 2:
+                continue
+            confirmed[ctx] = confirmed.get(ctx, 0) + 1
             env = vlib.sanitizer_env(out)
             if st.env:
                 env.update(st.env)
@@ -117,6 +123,7 @@ class Prop:
             except Exception:
                 pass
             if not again:
+                confirmed[ctx] -= 1
                 r["t"] = "timeout"
                 r["msg"] = "CPU limit hit once but not reproduced"
 
@@ -249,4 +256,25 @@ PROPS["C07"] = Prop(
     level_text=("exploration: generated descriptions are compared with an expectation computed by the generator itself, hostile strings are "
                 "parsed from exact-size heap blocks (one byte over-read = ASan report), and every export is checked for the snprintf "
                 "contract, reload equality under the flag table of the property, and fixpoint"),
+)
+
+
+PROPS["C11"] = Prop(
+    "C11",
+    [Stage("asan", "c11_types", "asan", quick=6000, thorough=150000, per_worker_env=xml_backend_env)],
+    rule=("index%4 in {0,1}: every object (sampled above 60 objects; always every I/O, Group, MemCache object) of a corpus XML whose "
+          "osdev_type words are rewritten (single, multiple, all 7 bits, zero, unknown bits) or of a synthetic topology with cache depths "
+          "1..5 / instruction caches / several Group depths: type_snprintf under 5 flag words with the snprintf contract on exact-size "
+          "heap buffers, sscanf back (type + cache/group/bridge/osdev attributes), attr_snprintf with separators of 0..40 bytes; "
+          "same-level type text; index%4 in {2,3}: hostile strings for hwloc_type_sscanf in exact-size heap blocks with 5 attr sizes; "
+          "case 3: the complete 20x20 hwloc_compare_types table + kind predicates (exhaustive sub-check). distinct+non-trivial = class 1: "
+          "(type, attribute tuple, flag word) printed; class 2: hostile string shape classes"),
+    nontrivial_classes=[1, 2], floor=200,
+    assumptions=COMMON_ASSUME + [
+        "OS-device type sets are compared on the 7 defined bits: unknown bits provided by XML cannot be carried by the text",
+        "'all objects of one level print the same type text' is applied to normal, NUMA and MemCache levels (Bridge/OSDev levels mix sub-types by design)",
+        "non-termination = reproduced exhaustion of a 20 s CPU-time limit per case"],
+    technique="runtime monitor: print/parse identity and snprintf contract on exact-size heap buffers for every object, hostile type strings, exhaustive type table, under gcc ASan+UBSan with a CPU-time limit",
+    level_text=("exploration over objects/flag words/strings (held on what was generated); the 20x20 compare_types table and the kind "
+                "predicates are enumerated completely in every run"),
 )
